@@ -292,6 +292,83 @@ def rule_r3(prog, res, ef, tier):
     res.count('eea_dropped_by_regex', ef.stats['dropped_by_regex'])
 
 
+# ------------------------------------------------------------------- R9
+STRUCTURAL = [
+    ('spyne.protocol.xml:XmlDocument',
+     ('deserialize', 'decompose_incoming_envelope', 'from_element',
+      'complex_from_element', 'array_from_element', 'validate_body')),
+    ('spyne.protocol.soap.soap11:Soap11',
+     ('deserialize', 'decompose_incoming_envelope')),
+    ('spyne.protocol.dictdoc._base:DictDocument',
+     ('decompose_incoming_envelope',)),
+    ('spyne.protocol.dictdoc.hier:HierDictDocument',
+     ('deserialize', '_doc_to_object', '_from_dict_value')),
+    ('spyne.protocol.dictdoc.simple:SimpleDictDocument',
+     ('simple_dict_to_object',)),
+    ('spyne.protocol.http:HttpRpc',
+     ('deserialize', 'decompose_incoming_envelope')),
+    ('spyne.protocol.msgpack:MessagePackDocument',
+     ('decompose_incoming_envelope', 'gen_method_request_string')),
+    ('spyne.protocol.msgpack:MessagePackRpc',
+     ('deserialize', 'decompose_incoming_envelope')),
+    ('spyne.protocol.json:JsonDocument',
+     ('decompose_incoming_envelope', 'validate')),
+    ('spyne.protocol._base:ProtocolMixin',
+     ('generate_method_contexts', 'get_call_handles')),
+]
+# raise sites that only the twisted transport can reach (memoryview / mmap
+# request chunks): recorded, outside the property's transports
+TWISTED_ONLY = ('inst.tobytes().decode(', 'mmap[:].decode(')
+# confirmed by reading, one line of reason each
+NOT_TRIAGEABLE = {
+    ('SimpleDictDocument._to_native_values', 'v2.decode(req_enc)',
+     'LookupError'): 'values are bytes only for werkzeug form data (HttpRpc '
+                     'POST); werkzeug is not installed here, so the path '
+                     'cannot be exercised',
+}
+
+
+def rule_r9(prog, res, ef):
+    res.rule('R9', 'structural readers (envelope decomposition, '
+             'deserialize, document-to-object) raise only Faults on '
+             'malformed text')
+    n = 0
+    seen = set()
+    for cfq, names in STRUCTURAL:
+        c = prog.cls(cfq, required=False)
+        if c is None:
+            continue
+        for nm in names:
+            f = c.methods.get(nm)
+            if f is None:
+                continue
+            n += 1
+            raises = [r for r in ef.escapes(f) if r.exc != 'Fault' and
+                      r.why != 're-raise' and not r.why.startswith('raise ')]
+            fresh = []
+            for r in raises:
+                k = (r.func.qualname, r.why, r.exc)
+                if k in seen:
+                    continue
+                seen.add(k)
+                if k in NOT_TRIAGEABLE:
+                    res.unclass('R9', r.where, '%s in %s (%s): %s' % (
+                        r.why, r.func.qualname, r.exc, NOT_TRIAGEABLE[k]))
+                    continue
+                if any(r.why.startswith(t) for t in TWISTED_ONLY):
+                    res.note('%s in %s may raise %s for memoryview/mmap '
+                             'request chunks (twisted transport only)' % (
+                                 r.why, r.func.qualname, r.exc))
+                    continue
+                fresh.append(r)
+            report_escapes(res, 'R9', '%s.%s' % (c.name, nm), fresh)
+            if not fresh:
+                res.ob('R9', f.where, '%s.%s: no new non-Fault escape (%d '
+                       'raise sites seen so far)' % (c.name, nm, len(seen)),
+                       'ok')
+    res.floor('R9', 'structural reader functions', n, 15)
+
+
 # ------------------------------------------------------------------- R4
 NONE_SOURCES = ('match', 'search', 'fullmatch', 'find')
 
@@ -461,32 +538,65 @@ def rule_r5(prog, res):
     f = c.methods.get('_from_dict_value')
     if f is None:
         raise AnalysisError('HierDictDocument._from_dict_value', 'not found')
-    n = 0
+    # the leaf conversions: text-parser calls in _from_dict_value itself and
+    # in the private helpers of the class it hands the value to
+    sites = []
     for call in calls_in(f.node):
-        if call_name(call) not in TEXT_PARSERS:
+        nm = call_name(call)
+        recv = dotted(call.func.value) if isinstance(
+            call.func, ast.Attribute) else None
+        if recv != 'self':
             continue
-        if dotted(call.func.value if isinstance(call.func, ast.Attribute)
-                  else call.func) != 'self':
-            continue
-        n += 1
-        g = flatten_guards(guards_at(call, stop=f.node))
-        kinds = []
-        for e, pol in g:
-            t = unparse(e)
-            if t.startswith('issubclass(cls') and pol:
-                kinds.append(t)
-        where = '%s:%d' % (f.module.relpath, call.lineno)
+        if nm in TEXT_PARSERS:
+            sites.append((f, call, None))
+        elif nm.startswith('_') and nm in c.methods and nm not in (
+                '_doc_to_object', '_parse', '_cast'):
+            h = c.methods[nm]
+            for c2 in calls_in(h.node):
+                if call_name(c2) in TEXT_PARSERS and isinstance(
+                        c2.func, ast.Attribute) and dotted(
+                        c2.func.value) == 'self':
+                    sites.append((h, c2, call))
+    NEED = ('TypeError', 'AttributeError', 'ValueError')
+    for g, call, via in sites:
+        where = '%s:%d' % (g.module.relpath, (via or call).lineno)
+        gl = flatten_guards(guards_at(call, stop=g.node))
+        if via is not None:
+            gl = gl + flatten_guards(guards_at(via, stop=f.node))
         isinst = any(unparse(e).startswith('isinstance(inst') and pol
-                     for e, pol in g)
-        res.ob('R5', where, '_from_dict_value: %s under %s%s' % (
-            unparse(call)[:50], kinds[-1:] or ['(fallback branch)'],
-            ' after an isinstance test' if isinst else ''),
-            'ok' if isinst else 'recorded', nontrivial=True)
-        if not isinst:
-            res.unclass('R5', where, 'text parser %s applied to a document '
-                        'value whose kind is only checked by the handler '
-                        'itself' % unparse(call)[:50])
-    res.floor('R5', 'text parser calls in _from_dict_value', n, 2)
+                     for e, pol in gl)
+        caught = set()
+        for t, region in enclosing_trys(call, stop=g.node):
+            if region != 'body':
+                continue
+            for h in t.handlers:
+                names = handler_names(h)
+                raises_fault = any(
+                    isinstance(n, ast.Raise) and n.exc is not None and
+                    'Error' in unparse(n.exc) and not any(
+                        x in unparse(n.exc) for x in NEED)
+                    for n in ast.walk(h))
+                if not raises_fault:
+                    continue
+                if not names or 'Exception' in names:
+                    caught.update(NEED)
+                caught.update(n for n in names if n in NEED)
+        ok = isinst or all(n in caught for n in NEED)
+        res.ob('R5', where, '%s: %s %s' % (
+            g.qualname, unparse(call)[:50],
+            'after an isinstance test' if isinst else
+            'inside a handler converting %s' % sorted(caught) if caught else
+            'unguarded'), 'ok' if ok else 'VIOLATED', nontrivial=True)
+        if not ok:
+            res.finding('R5', '%s|%s|kind-unchecked' % (
+                g.qualname, unparse(call)[:40]), where,
+                '%s hands a document value of any kind (number, boolean, '
+                'list, dict) to the text parser %s; %s escape as non-Fault '
+                'exceptions for a mistyped JSON/YAML/msgpack value' % (
+                    f.qualname, unparse(call)[:50],
+                    '/'.join(n for n in NEED if n not in caught)))
+    res.floor('R5', 'leaf text-parser sites of _from_dict_value',
+              len(sites), 1)
     # the soft-validation kind check for Unicode must stay
     v = c.methods.get('validate')
     if v is not None:
@@ -617,6 +727,7 @@ def run(prog, res, tier):
     res.run_rule(rule_r1, prog, res, tier)
     res.run_rule(rule_r2, prog, res, ef)
     res.run_rule(rule_r3, prog, res, ef, tier)
+    res.run_rule(rule_r9, prog, res, ef)
     res.run_rule(rule_r4, prog, res, tier)
     res.run_rule(rule_r5, prog, res)
     res.run_rule(rule_r6, prog, res, tier)
@@ -786,6 +897,18 @@ MUTANTS = [
                    "if inst is None and self.get_cls_attrs(cls).nullable:",
                    "if not inst and self.get_cls_attrs(cls).nullable:"),
            'null-exemption'),
+    Mutant('leaf-kind-handler-narrowed', 'R5', 'fire', _H,
+           in_func('HierDictDocument._from_leaf',
+                   "except (TypeError, AttributeError, ValueError):",
+                   "except (TypeError, ValueError):"), 'kind-unchecked'),
+    Mutant('leaf-bypasses-helper', 'R5', 'fire', _H,
+           in_func('HierDictDocument._from_dict_value',
+                   "retval = self._from_leaf(key, cls, inst)",
+                   "retval = self.from_serstr(cls, inst)"), 'kind-unchecked'),
+    Mutant('leaf-handler-broader', 'R5', 'benign', _H,
+           in_func('HierDictDocument._from_leaf',
+                   "except (TypeError, AttributeError, ValueError):",
+                   "except Exception:"), None),
     Mutant('user-code-despite-in-error', 'R6', 'fire', _W,
            in_func('WsgiApplication.handle_rpc',
                    r"        self\.get_in_object\(p_ctx\)\n"
